@@ -48,8 +48,20 @@ fn case_strategy() -> impl Strategy<Value = Case> {
         proptest::collection::vec((any::<u8>(), fail_strategy()), 0..3),
         any::<bool>(),
         0u8..2,
+        proptest::option::weighted(0.35, (any::<u8>(), 0u8..4)),
     )
-        .prop_map(|(ins, split, clone_at, alt, failing, pad, alt_mode)| Case { ins, split, clone_at, alt, failing, pad, alt_mode })
+        .prop_map(|(mut ins, split, clone_at, alt, failing, pad, alt_mode, shadow)| {
+            // a user definition, then the import of a module that defines the same constant,
+            // then a read of it: three consecutive inputs (joined or not by `split`)
+            if let Some((pos, which)) = shadow {
+                let at = pos as usize % (ins.len() + 1);
+                let module = MODULE_NAMES[which as usize % MODULE_NAMES.len()].0 as u16;
+                ins.insert(at, Ins::ModRead { which });
+                ins.insert(at, Ins::Use { module });
+                ins.insert(at, Ins::ModLet { which });
+            }
+            Case { ins, split, clone_at, alt, failing, pad, alt_mode }
+        })
 }
 
 fn outcome_key(o: &Outcome) -> String {
